@@ -93,6 +93,79 @@ static std::string restrict_ps(const PauliStringRef<W> &p, const std::map<uint32
     return s;
 }
 
+// Propagation through a tableau applied to chosen positions (`after(tableau, indices)` / `before`), and the term-wise products
+// used by the Python layer (left/right_mul_pauli), from_func and sparse_str.  The oracle applies the embedded tableau
+// (`tab apply`, with the embedding itself judged by `tab scatter`).
+template <size_t W>
+static void tableau_prop_case(Rng &rng, Stats &st, uint64_t k) {
+    size_t n = rng.pick(std::vector<size_t>{2, 3, 5, 64, 65, 70});
+    size_t g = 1 + rng.below(std::min<size_t>(3, n));
+    std::mt19937_64 r(rng.next());
+    Tableau<W> G = Tableau<W>::random(g, r);
+    std::vector<size_t> idx;
+    while (idx.size() < g) {
+        size_t q = rng.below(n);
+        if (std::find(idx.begin(), idx.end(), q) == idx.end()) idx.push_back(q);
+    }
+    auto p = rand_ps<W>(rng, n, 0.6);
+    out_case(k, "tableau propagation W=" + std::to_string(W) + " n=" + std::to_string(n) + " gate qubits=" + std::to_string(g));
+    auto tab_wire = [](const Tableau<W> &t) {
+        std::string s2 = std::to_string(t.num_qubits);
+        for (size_t q = 0; q < t.num_qubits; q++) s2 += " " + ps_str<W>(PauliString<W>(t.xs[q]));
+        for (size_t q = 0; q < t.num_qubits; q++) s2 += " " + ps_str<W>(PauliString<W>(t.zs[q]));
+        return s2;
+    };
+    Tableau<W> E(n);
+    E.inplace_scatter_append(G, idx);
+    std::string ts;
+    for (auto q : idx) ts += " " + std::to_string(q);
+    out_q("tab scatter append " + tab_wire(Tableau<W>(n)) + " " + tab_wire(G) + ts, tab_wire(E));
+    auto a1 = p.ref().after(G, idx);
+    out_q("tab apply " + tab_wire(E) + " " + ps_str<W>(p), ps_str<W>(a1));
+    auto b1 = a1.ref().before(G, idx);
+    if (b1 != p) out_x("before(tableau) does not undo after(tableau)");
+    auto b2 = p.ref().before(G, idx);
+    if (b2.ref().after(G, idx) != p) out_x("after(tableau) does not undo before(tableau)");
+    st.hit("tableau_propagation");
+    // term-wise products
+    {
+        PauliString<W> x = rand_ps<W>(rng, n, 0.6);
+        size_t q = rng.below(n);
+        int l = 1 + (int)rng.below(3);
+        GateTarget t = l == 1 ? GateTarget::x((uint32_t)q) : l == 2 ? GateTarget::y((uint32_t)q) : GateTarget::z((uint32_t)q);
+        PauliString<W> single(n);
+        single.xs[q] = l == 1 || l == 2;
+        single.zs[q] = l == 2 || l == 3;
+        for (int side = 0; side < 2; side++) {
+            PauliString<W> y = x;
+            bool imag = false;
+            if (side == 0) y.left_mul_pauli(t, &imag); else y.right_mul_pauli(t, &imag);
+            int ph = (y.sign ? 2 : 0) + (imag ? 1 : 0);
+            PauliString<W> letters = y;
+            letters.sign = false;
+            // Lean multiplies the two strings (power of i included)
+            out_q(std::string("pauli mul ") + (side == 0 ? wire_ps<W>(single.ref()) + " " + wire_ps<W>(x.ref()) : wire_ps<W>(x.ref()) + " " + wire_ps<W>(single.ref())),
+                  wire_ps<W>(letters.ref(), ph));
+        }
+        // from_func / sparse_str
+        auto f = PauliString<W>::from_func(x.sign, n, [&](size_t i) { return "_XZY"[x.xs[i] + 2 * x.zs[i]]; });
+        if (f != x) out_x("from_func does not rebuild the string from its own letters");
+        std::string sp = x.ref().sparse_str();
+        std::string want = x.sign ? "-" : "+";
+        bool any = false;
+        for (size_t i = 0; i < n; i++) {
+            int c2 = x.xs[i] + 2 * x.zs[i];
+            if (!c2) continue;
+            if (any) want += "*";
+            want += std::string(1, "_XZY"[c2]) + std::to_string(i);
+            any = true;
+        }
+        if (!any) want += "I";
+        if (sp != want) out_x("sparse_str gives " + sp + " for " + x.str());
+        st.hit("termwise_products");
+    }
+}
+
 template <size_t W>
 static void prop_case(Rng &rng, Stats &st, uint64_t k) {
     GenOpts o;
@@ -180,6 +253,10 @@ VH_AREA(pauli) {
             if (w == 0) arith_case<64>(rng, st);
             else if (w == 1) arith_case<128>(rng, st);
             else arith_case<256>(rng, st);
+        } else if (k % 10 == 9) {
+            if (w == 0) tableau_prop_case<64>(rng, st, k);
+            else if (w == 1) tableau_prop_case<128>(rng, st, k);
+            else tableau_prop_case<256>(rng, st, k);
         } else {
             if (w == 0) prop_case<64>(rng, st, k);
             else if (w == 1) prop_case<128>(rng, st, k);
